@@ -197,6 +197,27 @@ def rule_c(ck, R):
                 if not eng.entails(facts, lin.le(A + S, L(ADDR))):
                     bad = bad or ('skips a register under {%s} although it may still overlap the range (its end address + size can lie above addr): '
                                   'a range starting inside a multi-word register does not visit that register' % '; '.join(fmt(c) for c in p.cond_terms()[-2:]))
+        # range of the search: every handle of [first, last] is examined (inclusive upper bound, step +1);
+        # giving up (valid = false) needs the whole range to have been looked at
+        for p in ps:
+            if not p.loops:
+                continue
+            lmap = p.loops[-1][1]
+            hk = [(k, h) for k, (h, pre) in lmap.items() if pre == ('v', 'first')]
+            if not hk:
+                continue
+            k, h = hk[0]
+            LAST = L(('v', 'last'))
+            if p.end == 'loopback':
+                if not eng.entails(p, L(h) - LAST):
+                    bad = bad or 'a register is examined under {%s}: index <= last is not established' % '; '.join(fmt(c) for c in p.cond_terms() if sym.contains(c, h))[:160]
+                d = L(p.mem.get(k, h)) - L(h)
+                if not (d.is_const() and d.c == 1):
+                    bad = bad or 'the search index moves by %s' % d
+            elif p.end == 'return' and p.ret is not None and p.ret[0] == 'struct' and dict(p.ret[2]).get('valid') == C(0):
+                if not eng.entails(p, LAST + 1 - L(h)):
+                    bad = bad or ('the search gives up under {%s} before the handle last has been examined: a range that starts at the last register of the '
+                                  'table finds no start register' % '; '.join(fmt(c) for c in p.cond_terms() if sym.contains(c, h))[:160])
         if sel == 0 and bad is None:
             bad = 'no selecting path'
         if sel and not gap_ok and bad is None:
@@ -206,6 +227,36 @@ def rule_c(ck, R):
                    'selects the first register not wholly below addr (skips only registers ending at or below addr)' if bad is None else bad)
     # (2) register_foreach_in
     eng2 = sym.Engine(R.u, sizeof=R.so, inline=set())
+    # find_area is only a hint for where the register search starts - but a wrong hint that lies *behind* the area of
+    # addr makes the search skip registers: a valid result must be an area that contains addr
+    ps = R.paths('find_area', 'C03.c', eng2)
+    if ps is not None:
+        bad = None
+        nsel = 0
+        for p in ps:
+            if p.end != 'return' or p.ret is None or p.ret[0] != 'struct':
+                continue
+            d_ = dict(p.ret[2])
+            if d_.get('valid') == C(0):
+                continue
+            nsel += 1
+            tests = [e for e in p.calls('ra_addr_is_part_of')]
+            hnd = d_.get('handle')
+            ok = False
+            for e in tests:
+                truthy = any(c[0] == 'cmp' and c[1] == '!=' and strip_cast(c[2]) == e.result and c[3] == C(0) for c in p.cond_terms())
+                a0 = strip_cast(e.args[0])
+                if truthy and e.args[1] == ADDR and hnd is not None and a0[0] == '+' and a0[1] == ('f', T, 'area'):
+                    # the hint may be that area or any earlier one (areas and registers are sorted): handle <= index tested
+                    if eng2.entails(p, L(strip_cast(hnd)) - L(a0[2])):
+                        ok = True
+            if not ok:
+                bad = bad or ('a valid result (handle %s) is returned on a path where that area is not known to contain addr ({%s}): '
+                              'the register search then starts behind registers of the range' % (fmt(hnd) if hnd else '?', '; '.join(fmt(c) for c in p.cond_terms()[-2:])[:160]))
+        if nsel == 0:
+            bad = bad or 'no path returns a valid area'
+        ck.verdict(bad is None, 'C03.c', 'find_area', R.where('find_area'),
+                   'a valid result is the area for which ra_addr_is_part_of(area, addr) held, or an earlier one' if bad is None else bad)
     ps = R.paths('register_foreach_in', 'C03.c', eng2)
     if ps is not None:
         bad = None
@@ -247,6 +298,16 @@ def rule_c(ck, R):
             for f_ in fr:
                 if f_.args[3] != ADDR:
                     bad = 'find_reg searches for %s' % fmt(f_.args[3])
+                # where the search starts: at register 0, or at the first register of the area containing addr
+                st_ = strip_cast(f_.args[1])
+                fa = p.calls('find_area')
+                okstart = st_ == C(0) or (fa and 'entry.first' in fmt(st_) and sym.contains(st_, fa[-1].result)) or \
+                    (st_[0] in ('h', 'v') and 'first' in fmt(st_))
+                if not okstart:
+                    bad = bad or 'the start register is searched from handle %s on: registers before it are never candidates' % fmt(f_.args[1])
+                d = L(f_.args[2]) - (L(entries) - 1)
+                if not (d.is_const() and d.c == 0):
+                    bad = bad or 'the start register is searched only up to %s, not to the last register of the table' % fmt(f_.args[2])
         if not iterated and bad is None:
             bad = 'no path iterates'
         ck.verdict(bad is None, 'C03.c', 'register_foreach_in', R.where('register_foreach_in'),
